@@ -183,6 +183,10 @@ pub fn check_claim3(lon: f64, lat: f64, r: f64, listed_kf1: bool, part: &mut Par
     }
   }
   for (l, b) in pts {
+    // only points that really are in the cone (guards the oracle against its own rounding)
+    if !(ang_dist(lon, lat, l, b) <= r) {
+      continue;
+    }
     let (x, y) = ref_proj(l, b);
     let inside = block.iter().any(|&c| outside(k, c, x, y) <= TOL_PLANE);
     if !inside {
